@@ -68,6 +68,7 @@ def crm(env, num_x, num_y, s, c):
 
 
 @job("c14.multi_section", ("C14",), cfgs=[dict(nsec=2, nx=2, ny=(3, 3), symmetry=True), dict(nsec=3, nx=2, ny=(3, 2, 3), symmetry=True),
+                                           dict(nsec=5, nx=2, ny=(2, 3, 2, 2, 3), symmetry=True),      # beyond any "first/last section" special case
                                            dict(nsec=3, nx=3, ny=(3, 4, 3), symmetry=True, _tier=T)],
      ranges=[(r"^b|^t|^c0", 0.7, 1.4), (r"^sw", 0.05, 0.3)], cost=10)
 def multi_section(env, nsec, nx, ny, symmetry):
